@@ -18,7 +18,13 @@ const OUT: u16 = 1024;
 const MAX48: u64 = 0x0000_FFFF_FFFF_FFFF;
 
 fn replay_j(a: &ShardArgs, idx: u64) -> J {
-    J::obj(vec![("check", J::s("c18")), ("seed", J::U(a.seed)), ("shard", J::U(a.shard)), ("nshards", J::U(a.nshards)), ("scenario", J::U(idx))])
+    J::obj(vec![
+        ("check", J::s("c18")),
+        ("seed", J::U(a.seed)),
+        ("shard", J::U(a.shard)),
+        ("nshards", J::U(a.nshards)),
+        ("scenario", J::U(idx)),
+    ])
 }
 
 fn pick_delay(r: &mut crate::verif::rng::Rng) -> u64 {
@@ -55,10 +61,18 @@ async fn paired(a: &ShardArgs, idx: u64) {
     };
     // how much of the reported processing delay really elapses: honest, or less (dishonest: must fail when p > round trip)
     let dishonest = procedure == 1 && p > 0 && r.chance(1, 5);
-    let held = if dishonest { r.range(0, p.saturating_sub(1)) } else { p };
+    let held = if dishonest {
+        r.range(0, p.saturating_sub(1))
+    } else {
+        p
+    };
     let warm = r.range(0, 2 * (f + b).min(3000) + 10);
     // instant at which the master reads its clock for the value it writes
-    let t_read = if procedure == 1 { warm + f + held + b } else { warm };
+    let t_read = if procedure == 1 {
+        warm + f + held + b
+    } else {
+        warm
+    };
     let base: u64 = match r.below(6) {
         0 => 0,
         1 => r.range(0, 1_000_000),
@@ -80,7 +94,15 @@ async fn paired(a: &ShardArgs, idx: u64) {
     oc.decode = r.usize_below(108);
     let o = OutSim::start_with(oc.clone(), |db| {
         use crate::outstation::database::*;
-        db.add(0, Some(EventClass::Class1), AnalogInputConfig::new(StaticAnalogInputVariation::Group30Var1, EventAnalogInputVariation::Group32Var3, 0.0));
+        db.add(
+            0,
+            Some(EventClass::Class1),
+            AnalogInputConfig::new(
+                StaticAnalogInputVariation::Group30Var1,
+                EventAnalogInputVariation::Group32Var3,
+                0.0,
+            ),
+        );
     })
     .await;
     o.mock.script(|s| {
@@ -106,7 +128,15 @@ async fn paired(a: &ShardArgs, idx: u64) {
         // an event right before the procedure: an unsolicited response with data crosses it
         pair.o.db(|db| {
             use crate::outstation::database::*;
-            db.update(0, &crate::app::measurement::AnalogInput::new(1.5, crate::app::measurement::Flags::ONLINE, crate::app::measurement::Time::synchronized(1)), UpdateOptions::detect_event());
+            db.update(
+                0,
+                &crate::app::measurement::AnalogInput::new(
+                    1.5,
+                    crate::app::measurement::Flags::ONLINE,
+                    crate::app::measurement::Time::synchronized(1),
+                ),
+                UpdateOptions::detect_event(),
+            );
         });
         settle().await;
         pair.pump();
@@ -144,7 +174,8 @@ async fn paired(a: &ShardArgs, idx: u64) {
                     return;
                 }
                 match (fl.dir, func) {
-                    (Dir::ToOutstation, Some(ra::F_RECORD_CURRENT_TIME)) | (Dir::ToOutstation, Some(ra::F_DELAY_MEASURE)) => {
+                    (Dir::ToOutstation, Some(ra::F_RECORD_CURRENT_TIME))
+                    | (Dir::ToOutstation, Some(ra::F_DELAY_MEASURE)) => {
                         if t_first_req_sent.is_none() {
                             *t_first_req_sent = Some(fl.sent_t);
                             *t_first_req_arrived = Some(pr.now());
@@ -152,7 +183,12 @@ async fn paired(a: &ShardArgs, idx: u64) {
                         if func == Some(ra::F_DELAY_MEASURE) {
                             *t_measure_sent = Some(fl.sent_t);
                             // the outstation answers at once in virtual time; the relay holds the answer for the processing time
-                            if let Some(rep) = pr.in_flight.iter_mut().find(|x| x.dir == Dir::ToMaster && !x.injected && app_function(&x.bytes) == Some(ra::F_RESPONSE) && x.sent_t >= fl.deliver_at) {
+                            if let Some(rep) = pr.in_flight.iter_mut().find(|x| {
+                                x.dir == Dir::ToMaster
+                                    && !x.injected
+                                    && app_function(&x.bytes) == Some(ra::F_RESPONSE)
+                                    && x.sent_t >= fl.deliver_at
+                            }) {
                                 rep.deliver_at += held;
                             }
                         }
@@ -161,12 +197,21 @@ async fn paired(a: &ShardArgs, idx: u64) {
                             // a stale response (other sequence number) reaches the master before the real one
                             let seq = app_control(&fl.bytes).unwrap_or(0) & 15;
                             let mut tseq = 33u8;
-                            let stale = encode_fragment(false, 1, OUT, &ra::B::response(ra::FIR | ra::FIN | ((seq + 5) & 15), false, 0, 0).done(), &mut tseq);
+                            let stale = encode_fragment(
+                                false,
+                                1,
+                                OUT,
+                                &ra::B::response(ra::FIR | ra::FIN | ((seq + 5) & 15), false, 0, 0)
+                                    .done(),
+                                &mut tseq,
+                            );
                             let at = pr.now();
                             pr.inject(Dir::ToMaster, at, stale);
                         }
                     }
-                    (Dir::ToOutstation, Some(ra::F_WRITE)) if fl.bytes.len() > 13 && fl.bytes[13] == 50 => {
+                    (Dir::ToOutstation, Some(ra::F_WRITE))
+                        if fl.bytes.len() > 13 && fl.bytes[13] == 50 =>
+                    {
                         if procedure == 2 && t_first_req_sent.is_none() {
                             *t_first_req_sent = Some(fl.sent_t);
                             *t_first_req_arrived = Some(pr.now());
@@ -204,11 +249,23 @@ async fn paired(a: &ShardArgs, idx: u64) {
         .await;
     }
     for (t, d, fnc, bytes) in &frames {
-        hist.push(format!("t={t} delivered {d:?} func={fnc:?} {}", hexs(&bytes[..bytes.len().min(40)])));
+        hist.push(format!(
+            "t={t} delivered {d:?} func={fnc:?} {}",
+            hexs(&bytes[..bytes.len().min(40)])
+        ));
     }
     let result = pair.m.result_of(id);
     let evs = pair.o.mock.all();
-    let writes: Vec<(u64, u64)> = evs.iter().filter_map(|(t, e)| if let Ev::WriteAbsTime(v) = e { Some((*t, *v)) } else { None }).collect();
+    let writes: Vec<(u64, u64)> = evs
+        .iter()
+        .filter_map(|(t, e)| {
+            if let Ev::WriteAbsTime(v) = e {
+                Some((*t, *v))
+            } else {
+                None
+            }
+        })
+        .collect();
     hist.push(format!("submitted t={t_submit}; result {result:?}; write_absolute_time calls {writes:?}; first request sent {t_first_req_sent:?} arrived {t_first_req_arrived:?}; write sent {t_write_sent:?} value {written_value:?}; measured rtt {measure_rtt:?}"));
     let mut violations: Vec<(String, String, String)> = vec![];
     out::eval(1);
@@ -219,7 +276,13 @@ async fn paired(a: &ShardArgs, idx: u64) {
     };
     let ok = text.starts_with("Ok");
     // the true master clock at a virtual instant (None when it would have wrapped)
-    let mclock = |t: u64| -> Option<u64> { if base + t <= MAX48 { Some(base + t) } else { None } };
+    let mclock = |t: u64| -> Option<u64> {
+        if base + t <= MAX48 {
+            Some(base + t)
+        } else {
+            None
+        }
+    };
     // ---- conditions under which the property demands a failure
     let mut must_fail: Vec<&str> = vec![];
     if no_time {
@@ -237,12 +300,22 @@ async fn paired(a: &ShardArgs, idx: u64) {
     // 48-bit overflow of the value that has to be written / applied
     let _ = (t_done, t_read);
     // the instant at which the master really read its clock (other tasks may have delayed the procedure)
-    let t_read_actual: Option<u64> = if procedure == 1 { t_write_sent } else { t_first_req_sent };
+    let t_read_actual: Option<u64> = if procedure == 1 {
+        t_write_sent
+    } else {
+        t_first_req_sent
+    };
     let read_fits = t_read_actual.map(|t| mclock(t).is_some()).unwrap_or(false);
-    let clock_wrapped = writes.first().map(|w| mclock(w.0).is_none()).unwrap_or(false) || !read_fits;
+    let clock_wrapped = writes
+        .first()
+        .map(|w| mclock(w.0).is_none())
+        .unwrap_or(false)
+        || !read_fits;
     // the value the procedure has to write / apply, computed from what was observed on the wire
     let value_due: Option<u128> = match (procedure, t_read_actual) {
-        (1, Some(t)) => measure_rtt.map(|rtt| base as u128 + t as u128 + (rtt.saturating_sub(p) / 2) as u128),
+        (1, Some(t)) => {
+            measure_rtt.map(|rtt| base as u128 + t as u128 + (rtt.saturating_sub(p) / 2) as u128)
+        }
         (0, Some(t)) => match (t_first_req_arrived, t_write_sent) {
             (Some(arr), Some(ws)) => Some(base as u128 + t as u128 + (ws + f - arr) as u128),
             _ => None,
@@ -258,7 +331,11 @@ async fn paired(a: &ShardArgs, idx: u64) {
     }
     if ok {
         if !must_fail.is_empty() {
-            violations.push(("A_success_despite".into(), must_fail[0].replace(' ', "-"), format!("synchronize_time reported Ok although: {must_fail:?}")));
+            violations.push((
+                "A_success_despite".into(),
+                must_fail[0].replace(' ', "-"),
+                format!("synchronize_time reported Ok although: {must_fail:?}"),
+            ));
         }
         if writes.len() != 1 {
             violations.push(("A_success_without_write".into(), format!("{}", writes.len().min(2)), format!("synchronize_time reported Ok but the outstation application saw {} write_absolute_time calls", writes.len())));
@@ -297,7 +374,11 @@ async fn paired(a: &ShardArgs, idx: u64) {
                 }
             }
             if v > MAX48 {
-                violations.push(("A_value_beyond_48_bits".into(), "value".into(), format!("value {v} handed to the application does not fit 48 bits")));
+                violations.push((
+                    "A_value_beyond_48_bits".into(),
+                    "value".into(),
+                    format!("value {v} handed to the application does not fit 48 bits"),
+                ));
             }
         }
     } else {
@@ -305,7 +386,10 @@ async fn paired(a: &ShardArgs, idx: u64) {
         if must_fail.is_empty() && !clock_wrapped {
             // not demanded by the property (it only constrains successes) but recorded: an always-failing implementation must not pass vacuously
             out::count("A_failed_without_listed_cause", 1);
-            out::distinct(&format!("fail-no-cause:{}", text.chars().take(40).collect::<String>()));
+            out::distinct(&format!(
+                "fail-no-cause:{}",
+                text.chars().take(40).collect::<String>()
+            ));
         } else {
             out::count("A_failed_as_demanded_ok", 1);
             for c in &must_fail {
@@ -317,7 +401,21 @@ async fn paired(a: &ShardArgs, idx: u64) {
     if ok && read_fits && value_due.map(|v| v + 2000 > MAX48 as u128).unwrap_or(false) {
         out::count("A_ok_just_below_48_bit_limit", 1);
     }
-    finish(a, idx, "A", &violations, &hist, format!("proc{procedure}/f{}/b{}/p{}/sym{}/fail{}", mag(f), mag(b), mag(p), symmetric as u8, must_fail.len().min(2)));
+    finish(
+        a,
+        idx,
+        "A",
+        &violations,
+        &hist,
+        format!(
+            "proc{procedure}/f{}/b{}/p{}/sym{}/fail{}",
+            mag(f),
+            mag(b),
+            mag(p),
+            symmetric as u8,
+            must_fail.len().min(2)
+        ),
+    );
 }
 
 fn mag(x: u64) -> u32 {
@@ -328,13 +426,41 @@ fn mag(x: u64) -> u32 {
     }
 }
 
-fn finish(a: &ShardArgs, idx: u64, part: &str, violations: &[(String, String, String)], hist: &[String], distinct: String) {
+fn finish(
+    a: &ShardArgs,
+    idx: u64,
+    part: &str,
+    violations: &[(String, String, String)],
+    hist: &[String],
+    distinct: String,
+) {
     for (rule, sig, why) in violations {
-        out::violation(P, &format!("C18.{rule}"), sig, J::obj(vec![("why", J::s(why.clone())), ("history", J::arr(hist.iter().cloned()))]), replay_j(a, idx));
+        out::violation(
+            P,
+            &format!("C18.{rule}"),
+            sig,
+            J::obj(vec![
+                ("why", J::s(why.clone())),
+                ("history", J::arr(hist.iter().cloned())),
+            ]),
+            replay_j(a, idx),
+        );
     }
     out::distinct(&format!("{part}/{distinct}"));
     for p in crate::verif::util::take_panics() {
-        out::violation(P, "C18.panic", &crate::verif::util::norm_location(&p.location), J::obj(vec![("why", J::s(format!("panic {} at {}", p.message, p.location))), ("history", J::arr(hist.iter().cloned()))]), replay_j(a, idx));
+        out::violation(
+            P,
+            "C18.panic",
+            &crate::verif::util::norm_location(&p.location),
+            J::obj(vec![
+                (
+                    "why",
+                    J::s(format!("panic {} at {}", p.message, p.location)),
+                ),
+                ("history", J::arr(hist.iter().cloned())),
+            ]),
+            replay_j(a, idx),
+        );
     }
     if a.replay.is_some() {
         for h in hist {
@@ -365,7 +491,9 @@ async fn scripted(a: &ShardArgs, idx: u64) {
     sim.set_time_base(Some(base));
     // which step is attacked and how
     let attack = r.below(9);
-    let mut hist = vec![format!("procedure={procedure} base={base} rtt={rtt} attack={attack}")];
+    let mut hist = vec![format!(
+        "procedure={procedure} base={base} rtt={rtt} attack={attack}"
+    )];
     let id = sim.submit(0, UserReq::TimeSync(procedure));
     settle().await;
     let mut must_fail: Option<&str> = None;
@@ -375,7 +503,10 @@ async fn scripted(a: &ShardArgs, idx: u64) {
         steps += 1;
         let rx = sim.collect();
         let reqs = requests(&rx);
-        let Some((_, t, _, rq)) = reqs.into_iter().find(|x| !(x.3.len() == 2 && x.3[1] == ra::F_CONFIRM)) else {
+        let Some((_, t, _, rq)) = reqs
+            .into_iter()
+            .find(|x| !(x.3.len() == 2 && x.3[1] == ra::F_CONFIRM))
+        else {
             sim.advance(100).await;
             continue;
         };
@@ -400,7 +531,10 @@ async fn scripted(a: &ShardArgs, idx: u64) {
                         0 => head(0, 0).done(),
                         1 => head(0, 0).count8(52, 1, 1, &[1, 0]).done(),
                         2 => head(0, 0).count8(52, 2, 2, &[1, 0, 2, 0]).done(),
-                        3 => head(0, 0).count8(52, 2, 1, &[1, 0]).count8(52, 2, 1, &[1, 0]).done(),
+                        3 => head(0, 0)
+                            .count8(52, 2, 1, &[1, 0])
+                            .count8(52, 2, 1, &[1, 0])
+                            .done(),
                         _ => head(0, 0).count8(50, 1, 1, &[1, 2, 3, 4, 5, 6]).done(),
                     }
                 }
@@ -436,7 +570,15 @@ async fn scripted(a: &ShardArgs, idx: u64) {
                     }
                     4 => {
                         must_fail = Some("outstation rejected the write");
-                        head(0, *r.pick(&[ra::IIN2_PARAM_ERROR, ra::IIN2_NO_FUNC, ra::IIN2_OBJECT_UNKNOWN])).done()
+                        head(
+                            0,
+                            *r.pick(&[
+                                ra::IIN2_PARAM_ERROR,
+                                ra::IIN2_NO_FUNC,
+                                ra::IIN2_OBJECT_UNKNOWN,
+                            ]),
+                        )
+                        .done()
                     }
                     _ => head(0, 0).done(),
                 }
@@ -458,7 +600,11 @@ async fn scripted(a: &ShardArgs, idx: u64) {
     let ok = text.starts_with("Ok");
     if let Some(c) = must_fail {
         if ok {
-            violations.push(("B_success_despite".into(), c.replace(' ', "-"), format!("synchronize_time reported Ok although: {c}")));
+            violations.push((
+                "B_success_despite".into(),
+                c.replace(' ', "-"),
+                format!("synchronize_time reported Ok although: {c}"),
+            ));
         } else {
             out::count("B_failed_as_demanded_ok", 1);
             out::count(&format!("B_failed_ok:{}", c.replace(' ', "_")), 1);
@@ -471,14 +617,37 @@ async fn scripted(a: &ShardArgs, idx: u64) {
     // a written value never exceeds 48 bits and, for the direct and LAN procedures, is the master clock at the instant the procedure's first request left
     for (_, v) in &write_seen {
         if *v > MAX48 {
-            violations.push(("B_value_beyond_48_bits".into(), "value".into(), format!("WRITE carries {v}")));
+            violations.push((
+                "B_value_beyond_48_bits".into(),
+                "value".into(),
+                format!("WRITE carries {v}"),
+            ));
         }
     }
     // after unexpected objects in the first step no WRITE may follow
-    if must_fail == Some("unexpected objects") && procedure != 2 && attack == 1 && !write_seen.is_empty() {
-        violations.push(("B_write_after_bad_reply".into(), format!("proc{procedure}"), "the time was written although the preceding step was answered with unexpected objects".into()));
+    if must_fail == Some("unexpected objects")
+        && procedure != 2
+        && attack == 1
+        && !write_seen.is_empty()
+    {
+        violations.push((
+            "B_write_after_bad_reply".into(),
+            format!("proc{procedure}"),
+            "the time was written although the preceding step was answered with unexpected objects"
+                .into(),
+        ));
     }
-    finish(a, idx, "B", &violations, &hist, format!("proc{procedure}/attack{attack}/fail{}", must_fail.is_some() as u8));
+    finish(
+        a,
+        idx,
+        "B",
+        &violations,
+        &hist,
+        format!(
+            "proc{procedure}/attack{attack}/fail{}",
+            must_fail.is_some() as u8
+        ),
+    );
 }
 
 /// Part C: real outstation against a scripted master (outstation-side rules)
@@ -500,8 +669,13 @@ async fn outstation_side(a: &ShardArgs, idx: u64) {
         let _ = sim.mock.take();
         match r.below(4) {
             0 => {
-                let rx = sim.request(&ra::B::request(ra::F_RECORD_CURRENT_TIME, seq).done()).await;
-                let ok = rx.iter().filter_map(|x| x.fragment()).any(|f| f.len() == 4 && f[3] & ra::IIN2_ERRORS == 0);
+                let rx = sim
+                    .request(&ra::B::request(ra::F_RECORD_CURRENT_TIME, seq).done())
+                    .await;
+                let ok = rx
+                    .iter()
+                    .filter_map(|x| x.fragment())
+                    .any(|f| f.len() == 4 && f[3] & ra::IIN2_ERRORS == 0);
                 hist.push(format!("t={now} RECORD_CURRENT_TIME -> ok={ok}"));
                 if ok {
                     recorded_at = Some(now);
@@ -515,10 +689,32 @@ async fn outstation_side(a: &ShardArgs, idx: u64) {
                     2 => 0,
                     _ => r.u64() & (MAX48 >> 1),
                 };
-                let rx = sim.request(&ra::B::request(ra::F_WRITE, seq).count8(50, 3, 1, &ra::time48(v)).done()).await;
-                let frag = rx.iter().filter_map(|x| x.fragment()).next().map(|f| f.to_vec()).unwrap_or_default();
+                let rx = sim
+                    .request(
+                        &ra::B::request(ra::F_WRITE, seq)
+                            .count8(50, 3, 1, &ra::time48(v))
+                            .done(),
+                    )
+                    .await;
+                let frag = rx
+                    .iter()
+                    .filter_map(|x| x.fragment())
+                    .next()
+                    .map(|f| f.to_vec())
+                    .unwrap_or_default();
                 let accepted = frag.len() >= 4 && frag[3] & ra::IIN2_ERRORS == 0;
-                let calls: Vec<u64> = sim.mock.take().iter().filter_map(|(_, e)| if let Ev::WriteAbsTime(v) = e { Some(*v) } else { None }).collect();
+                let calls: Vec<u64> = sim
+                    .mock
+                    .take()
+                    .iter()
+                    .filter_map(|(_, e)| {
+                        if let Ev::WriteAbsTime(v) = e {
+                            Some(*v)
+                        } else {
+                            None
+                        }
+                    })
+                    .collect();
                 hist.push(format!("t={now} WRITE g50v3 {v} -> accepted={accepted} calls={calls:?} (recorded_at {recorded_at:?})"));
                 match recorded_at {
                     None => {
@@ -540,7 +736,9 @@ async fn outstation_side(a: &ShardArgs, idx: u64) {
                             recorded_at = None;
                             // resynchronise the model: a fresh record follows before the next judged write
                             seq = (seq + 1) & 15;
-                            let _ = sim.request(&ra::B::request(ra::F_RECORD_CURRENT_TIME, seq).done()).await;
+                            let _ = sim
+                                .request(&ra::B::request(ra::F_RECORD_CURRENT_TIME, seq).done())
+                                .await;
                             recorded_at = Some(sim.now());
                         } else if calls != vec![want as u64] || !accepted {
                             violations.push(("C_elapsed_not_added".into(), "g50v3".into(), format!("t={now}: recorded {v} at t={t0}; expected write_absolute_time({want}) and acceptance, got calls {calls:?} accepted={accepted}")));
@@ -558,13 +756,41 @@ async fn outstation_side(a: &ShardArgs, idx: u64) {
             2 => {
                 // WRITE g50v1 (direct): value goes to the application unchanged
                 let v = r.u64() & MAX48;
-                let rx = sim.request(&ra::B::request(ra::F_WRITE, seq).count8(50, 1, 1, &ra::time48(v)).done()).await;
-                let frag = rx.iter().filter_map(|x| x.fragment()).next().map(|f| f.to_vec()).unwrap_or_default();
+                let rx = sim
+                    .request(
+                        &ra::B::request(ra::F_WRITE, seq)
+                            .count8(50, 1, 1, &ra::time48(v))
+                            .done(),
+                    )
+                    .await;
+                let frag = rx
+                    .iter()
+                    .filter_map(|x| x.fragment())
+                    .next()
+                    .map(|f| f.to_vec())
+                    .unwrap_or_default();
                 let accepted = frag.len() >= 4 && frag[3] & ra::IIN2_ERRORS == 0;
-                let calls: Vec<u64> = sim.mock.take().iter().filter_map(|(_, e)| if let Ev::WriteAbsTime(v) = e { Some(*v) } else { None }).collect();
-                hist.push(format!("t={now} WRITE g50v1 {v} -> accepted={accepted} calls={calls:?}"));
+                let calls: Vec<u64> = sim
+                    .mock
+                    .take()
+                    .iter()
+                    .filter_map(|(_, e)| {
+                        if let Ev::WriteAbsTime(v) = e {
+                            Some(*v)
+                        } else {
+                            None
+                        }
+                    })
+                    .collect();
+                hist.push(format!(
+                    "t={now} WRITE g50v1 {v} -> accepted={accepted} calls={calls:?}"
+                ));
                 if calls != vec![v] || !accepted {
-                    violations.push(("C_direct_write".into(), "g50v1".into(), format!("WRITE g50v1 {v}: calls {calls:?} accepted={accepted}")));
+                    violations.push((
+                        "C_direct_write".into(),
+                        "g50v1".into(),
+                        format!("WRITE g50v1 {v}: calls {calls:?} accepted={accepted}"),
+                    ));
                 } else {
                     out::count("C_direct_write_ok", 1);
                 }
@@ -573,12 +799,28 @@ async fn outstation_side(a: &ShardArgs, idx: u64) {
                 // DELAY_MEASURE reports the application's processing delay
                 let p = r.below(65_536) as u16;
                 sim.mock.script(|s| s.processing_delay = p);
-                let rx = sim.request(&ra::B::request(ra::F_DELAY_MEASURE, seq).done()).await;
-                let frag = rx.iter().filter_map(|x| x.fragment()).next().map(|f| f.to_vec()).unwrap_or_default();
-                let want = ra::B::response(ra::FIR | ra::FIN | seq, false, 0, 0).count8(52, 2, 1, &p.to_le_bytes()).done();
+                let rx = sim
+                    .request(&ra::B::request(ra::F_DELAY_MEASURE, seq).done())
+                    .await;
+                let frag = rx
+                    .iter()
+                    .filter_map(|x| x.fragment())
+                    .next()
+                    .map(|f| f.to_vec())
+                    .unwrap_or_default();
+                let want = ra::B::response(ra::FIR | ra::FIN | seq, false, 0, 0)
+                    .count8(52, 2, 1, &p.to_le_bytes())
+                    .done();
                 hist.push(format!("t={now} DELAY_MEASURE p={p} -> {}", hexs(&frag)));
                 if frag.len() != want.len() || frag[4..] != want[4..] {
-                    violations.push(("C_delay_measure".into(), "g52v2".into(), format!("DELAY_MEASURE with processing delay {p}: reply {}", hexs(&frag))));
+                    violations.push((
+                        "C_delay_measure".into(),
+                        "g52v2".into(),
+                        format!(
+                            "DELAY_MEASURE with processing delay {p}: reply {}",
+                            hexs(&frag)
+                        ),
+                    ));
                 } else {
                     out::count("C_delay_measure_ok", 1);
                 }
@@ -590,7 +832,10 @@ async fn outstation_side(a: &ShardArgs, idx: u64) {
 }
 
 pub fn run(a: &ShardArgs) -> Result<(), String> {
-    let only: Option<u64> = a.replay.as_ref().and_then(|p| super::common::replay_scenario(p));
+    let only: Option<u64> = a
+        .replay
+        .as_ref()
+        .and_then(|p| super::common::replay_scenario(p));
     let n = a.n(6000);
     for idx in 0..n {
         if idx % a.nshards != a.shard {
